@@ -195,11 +195,13 @@ class SubReport(Report):
         raise AnalysisError("SubReport.finish() must not be called")
 
 
-def merge_sub(rep, sub, rule, label):
+def merge_sub(rep, sub, rule, label, only_rules=None):
     """Restate sub's obligations in rep under `rule`: each failing obligation individually (same construct, detail prefixed
     with the originating rule), the passing ones as one aggregated obligation per (originating rule, construct)."""
     agg = {}
     for o in sub.obligations:
+        if only_rules is not None and o["rule"] not in only_rules:
+            continue
         if o["ok"]:
             k = (o["rule"], o["construct"])
             agg[k] = agg.get(k, 0) + 1
